@@ -30,12 +30,12 @@ ASSUMPTIONS = [
 ]
 TECHNIQUE = "reference-model runtime monitor (residual from oracle bases, exact-rank degeneracy) + intrinsic p/z and chi-square identities"
 DESIGN_REF = "DESIGN.md 4 C12"
-WEIGHTS = ["none", "frac", "zeros", "float", "tiny"]
+WEIGHTS = ["none", "frac", "zeros", "float", "tiny", "scales"]
 INS = ["none", "sum", "diff"]
 REQUIRED_REACH = ["zscores", "pvals", "p_from_z", "degenerate_all_nan", "chi_square_2x2",
                   "residual_test_stats", "class:degenerate", "class:regular",
                   "class:pair=CATxMR", "class:pair=MRxMR", "class:pair=MRxCAT",
-                  "class:ins=sum", "class:ins=diff"]
+                  "class:ins=sum", "class:ins=diff", "class:near_whole_table_vector"]
 BATCH = 40
 RULE = RULE + corpus.RULE_SUFFIX + w4.RULE_SUFFIX
 REQUIRED_REACH = list(REQUIRED_REACH) + ["class:corpus", "class:w4"]
@@ -59,7 +59,7 @@ def make_case(unit):
     j = i // len(TEMPLATES)
     mode = MODES[j % len(MODES)]
     ins = INS[(j // len(MODES)) % len(INS)]
-    wmode = WEIGHTS[(j // (len(MODES) * len(INS))) % len(WEIGHTS)]
+    wmode = WEIGHTS[gen.stratum(ID, i, "w", len(WEIGHTS))]
     N = g.pick([6, 10, 16, 25, 40, 60, 80])
     sizes = None
     nparts = len(template.split("|"))
@@ -221,6 +221,7 @@ def _slice(res, L, t, part):
     # base block of weighted counts (all valid elements, payload order)
     nbr, nbc = o.n_valid(V.R), o.n_valid(V.C)
     counts = [[o.total(V.sel(r, c), (), V.weighted) for c in range(nbc)] for r in range(nbr)]
+    exact_sums = cases.sums_exact(L.spec)
     degenerate = nbr == 0 or nbc == 0 or exact_rank(counts) < 2
     res.classes.append("degenerate" if degenerate else "regular")
     # p = 2 (1 - Phi(|z|)) in [0, 1]
@@ -235,6 +236,15 @@ def _slice(res, L, t, part):
     res.check("residual_test_stats", rts.ok and cmp.same(rts.value, np.stack([p, z]),
                                                          exact=True)[0],
               "slice/residual_test_stats", {"got": repr(rts)[:200]})
+    if not degenerate and np.all(np.isnan(z)):
+        # independent only below the resolution of double precision (second singular value
+        # under 1e-13 of the first: a rank-1 table of large weights plus respondents weighing
+        # 2^-37 of them): no floating-point computation can tell this table from a degenerate
+        # one, NaN everywhere is accepted and the case is not judged
+        sv = np.linalg.svd(np.asarray(counts, dtype=float), compute_uv=False)
+        if len(sv) >= 2 and sv[0] > 0 and sv[1] < 1e-13 * sv[0]:
+            res.skipped["independent_below_double_precision"] += 1
+            return False
     if degenerate:
         res.check("degenerate_all_nan", bool(np.all(np.isnan(z)) and np.all(np.isnan(p))),
                   "slice/zscores/degenerate_not_nan", {"z": z.tolist(), "counts": counts})
@@ -243,6 +253,7 @@ def _slice(res, L, t, part):
     any_finite = False
     bad = None
     zero_var_bad = None
+    slacks = {}
     for i, r in enumerate(V.rows):
         for j, c in enumerate(V.cols):
             n = V.count(r, c, True)
@@ -257,7 +268,13 @@ def _slice(res, L, t, part):
                 continue
             e = Fraction(rb) * Fraction(cb) / Fraction(tb)
             var = e * (1 - Fraction(rb) / Fraction(tb)) * (1 - Fraction(cb) / Fraction(tb))
-            if var <= 0 or abs(tb - rb) <= 1e-9 * abs(tb) or abs(tb - cb) <= 1e-9 * abs(tb):
+            near = abs(tb - rb) <= 1e-9 * abs(tb) or abs(tb - cb) <= 1e-9 * abs(tb)
+            if var > 0 and near and exact_sums:
+                # weights of very different magnitude whose sums are exact: a row holding
+                # all but 1e-11 of the table is not the whole table, its residual is defined
+                res.classes.append("near_whole_table_vector")
+                near = False
+            if var <= 0 or near:
                 # (with weights that are not exactly representable a margin equal to the
                 # table base shows as equal up to rounding)
                 if np.isfinite(z[i, j]):
@@ -266,7 +283,12 @@ def _slice(res, L, t, part):
                 continue
             ez = float(Fraction(n) - e) / float(var) ** 0.5
             any_finite = True
-            if not (np.isfinite(z[i, j]) and abs(z[i, j] - ez) <= 1e-8 * max(1.0, abs(ez))):
+            # the library's n - e cancels when a vector is nearly the whole table: allow the
+            # rounding of e (a few ulps of the larger operand) carried through the division
+            slack = 16 * 2.0 ** -53 * max(abs(float(n)), abs(float(e))) / float(var) ** 0.5
+            slacks[(i, j)] = slack
+            if not (np.isfinite(z[i, j])
+                    and abs(z[i, j] - ez) <= 1e-8 * max(1.0, abs(ez)) + slack):
                 bad = bad or {"at": [i, j], "got": float(z[i, j]), "exp": ez,
                               "n_rb_cb_tb": vals}
     res.check("zscores", bad is None, "slice/zscores/value", bad)
@@ -279,8 +301,16 @@ def _slice(res, L, t, part):
         tot = cnt.sum()
         e = np.outer(cnt.sum(1), cnt.sum(0)) / tot
         if np.all(e > 0):
-            chi = float(((cnt - e) ** 2 / e).sum())
-            ok = bool(np.allclose(z ** 2, chi, rtol=1e-8, atol=1e-10))
+            fc = [[Fraction(float(x)) for x in row] for row in counts]
+            ft = sum(sum(row) for row in fc)
+            fe = [[sum(fc[a]) * (fc[0][b] + fc[1][b]) / ft for b in (0, 1)] for a in (0, 1)]
+            chi = float(sum((fc[a][b] - fe[a][b]) ** 2 / fe[a][b]
+                            for a in (0, 1) for b in (0, 1)))
+            # same allowance for the cancellation in count - expected as above
+            tol = np.array([[2 * abs(z[a, b]) * slacks.get((a, b), 0.0)
+                             + slacks.get((a, b), 0.0) ** 2 for b in (0, 1)]
+                            for a in (0, 1)])
+            ok = bool(np.all(np.abs(z ** 2 - chi) <= 1e-8 * abs(chi) + 1e-10 + tol))
             res.check("chi_square_2x2", ok, "slice/zscores/chi_square",
                       {"z2": (z ** 2).tolist(), "chi2": chi})
     return any_finite
